@@ -142,6 +142,51 @@ def stable_def(d, P):
 
 # ------------------------------------------------------------------------------------------------
 
+def foreign_scope_writes(ctx, prog, S):
+    """Inside the variablescope module a scope's tables (variables / mixins / functions / modules) are written
+    only through a guard of `self`: a write through a guard taken on ANOTHER scope object bypasses every
+    built-in protection (the marker test lives in the methods), and that other object may be one of the
+    process-wide built-in module scopes."""
+    n = 0
+    for d, b in sorted(prog.bodies.items()):
+        if "variablescope::" not in d:
+            continue
+        for bi, t in b.calls():
+            name = mir.callee_name(t) or ""
+            orig = mir.callee_orig(t) or ""
+            if not (name == MUTATING_GUARD or (orig.endswith("DerefMut::deref_mut") and "MutexGuard" in (t["callee"].get("self_ty") or "") + name)):
+                continue
+            n += 1
+            term = S.operand(b, t["args"][0])
+            locks = [x for x in _subterms(term) if x[0] == "call" and x[1].endswith("Mutex<T>>::lock") and x[2]]
+            key = f"{fn_key(d, prog)}|guard-write"
+            if not locks:
+                ctx.ok("F3-foreign-scope-write", key, "guard origin not a Mutex::lock in this body")
+                continue
+            recv = sym.strip_transparent(locks[0][2][0])
+            root_self = recv[0] == "param" and recv[1] == 1
+            if root_self:
+                ctx.ok("F3-foreign-scope-write", key, sym.show(recv)[:60])
+            else:
+                ctx.fail("F3-foreign-scope-write", f"{key}|{sym.show(recv)[:50]}", f"{mir.short(d)} writes through a guard taken on `{sym.show(recv)[:80]}`, a scope other than self: "
+                         "the write bypasses the built-in module protection and can reach a process-wide built-in scope (a channel between compilations)", where=b.where(bi))
+    ctx.floor("guarded writes in the variablescope module", n, 8)
+
+
+def _subterms(t):
+    out = []
+
+    def rec(x):
+        if isinstance(x, tuple):
+            if x and isinstance(x[0], str):
+                out.append(x)
+            for y in x:
+                if isinstance(y, tuple):
+                    rec(y)
+    rec(t)
+    return out
+
+
 def scope_mutators(prog):
     """Scope / ScopeRef methods that write through a MutexGuard of a field of self."""
     out = {}
@@ -158,6 +203,7 @@ def builtin_scopes(ctx, prog):
     S = sym.Sym(prog, inline_depth=0)
     base = scope_mutators(prog)
     ctx.floor("Scope mutator methods", len(base), 8)
+    foreign_scope_writes(ctx, prog, S)
     # ---- summaries: which parameters of f reach the receiver of a mutator?
     mutates = {d: set(v) for d, v in base.items()}
     changed = True
